@@ -563,7 +563,7 @@ def std_caps():
 
 
 # ---- structured NLRI of the families whose encoders the model covers (Flowspec x4, RTC, EVPN, SR Policy x2)
-STRUCT_FAMILIES = (W.IPV4_FS, W.IPV6_FS, W.IPV4_FSVPN, W.IPV6_FSVPN, W.RTC, W.EVPN, W.IPV4_SRP, W.IPV6_SRP)
+STRUCT_FAMILIES = (W.IPV4_FS, W.IPV6_FS, W.IPV4_FSVPN, W.IPV6_FSVPN, W.RTC, W.EVPN, W.IPV4_SRP, W.IPV6_SRP, W.IPV4_MUP, W.IPV6_MUP)
 RDS = [[0, 0, 253, 232, 0, 0, 0, 100], [0, 1, 192, 0, 2, 1, 0, 7], [0, 2, 0, 1, 0, 0, 0, 9]]
 V6A = [32, 1, 13, 184, 0, 1, 0, 2, 0, 3, 0, 4, 0, 5, 0, 6]
 OPVALS = [0, 1, 255, 256, 65535, 65536, 4294967295, 4294967296, 2 ** 64 - 1]
@@ -606,14 +606,32 @@ def evpn_route(i, k):
     ipp = ip or [10, 1, 0, 0]
     return ['evpn', 5, rd, esi, i, [0, 8 * len(ipp), 24][i % 3], ipp, [0] * len(ipp) if i % 2 else (ipp[:-1] + [1]), [0, 16777215, 5000][i % 3]]
 
+def mup_route(f, i, k):
+    v6 = f == W.IPV6_MUP
+    w = 16 if v6 else 4
+    addr = (V6A[:12] + W.be32(i)) if v6 else [10] + W.be32(i)[1:]
+    ep = V6A if v6 else [192, 0, 2, 1]
+    rd = RDS[i % 3]
+    pl = [0, 1, 8 * w - 1, 8 * w, 24][i % 5]
+    nb = (pl + 7) // 8
+    pa = addr[:nb] + [0] * (w - nb)
+    if k == 1: return ['mup', 1, rd, pl, pa]
+    if k == 2: return ['mup', 2, rd, addr]
+    if k == 3: return ['mup', 3, rd, pl, pa, [0, i, 4294967295][i % 3], [0, 9, 63, 255][i % 4], ep, None if i % 2 else addr]
+    tb = i % 5
+    teid = (0x01020304 + i) & 0xffffffff
+    teid -= teid % (256 ** (4 - tb))
+    return ['mup', 4, rd, 8 * w + [0, 8, 16, 24, 32][tb] - ([0, 3, 0, 7, 0][i % 5] if tb else 0), ep, teid]
+
 def struct_entry(rng, f, i):
+    if f in (W.IPV4_MUP, W.IPV6_MUP): return mup_route(f, i, 1 + i % 4)
     if f in (W.IPV4_FS, W.IPV6_FS, W.IPV4_FSVPN, W.IPV6_FSVPN): return fs_rule(rng, f, i)
     if f == W.RTC: return ['rtc', i % 3, [0, 65000 + i, 4294967295][i % 3] if i % 3 else 0, (RDS[i % 3][:2] + W.be16(65000) + W.be32(i)) if i % 3 == 2 else []]
     if f == W.EVPN: return evpn_route(i, 1 + i % 5)
     if f == W.IPV4_SRP: return ['srp', i, 100 + i % 3, [10] + W.be32(i)[1:]]
     return ['srp', i, [0, 4294967295][i % 2], V6A[:12] + W.be32(i)]
 
-STRUCT_BULK = {W.EVPN: (9, 13), W.IPV4_FS: (10,), W.IPV6_FSVPN: (14,), W.RTC: (11,), W.IPV4_SRP: (12,)}
+STRUCT_BULK = {W.EVPN: (9, 13), W.IPV4_FS: (10,), W.IPV6_FSVPN: (14,), W.RTC: (11,), W.IPV4_SRP: (12,), W.IPV4_MUP: (15,)}
 
 def struct_entries(rng, f, n):
     if not n:
@@ -684,8 +702,14 @@ def struct_audit_cases(rng):
     for d, c in ((0, 0), (4294967295, 4294967295), (1, 100)):
         both(W.IPV4_SRP, [[0, ['srp', d, c, [192, 0, 2, 1]]]], 'srp_forms')
         both(W.IPV6_SRP, [[0, ['srp', d, c, V6A]]], 'srp_forms')
+    # MUP: every route type x address family, prefix length / TEID length edges, optional source address
+    for f in (W.IPV4_MUP, W.IPV6_MUP):
+        for k in range(1, 5):
+            for i in range(10):
+                both(f, [[0, mup_route(f, i, k)]], 'mup_every_type')
+            both(f, [[j + 1, mup_route(f, j, k)] for j in range(10)], 'mup_every_type', ap=3, ext=(False, False))
     # splitting: several frames of structured entries at 4096
-    for f, kind in ((W.EVPN, 9), (W.EVPN, 13), (W.IPV4_FS, 10), (W.IPV6_FSVPN, 14), (W.RTC, 11), (W.IPV4_SRP, 12)):
+    for f, kind in ((W.EVPN, 9), (W.EVPN, 13), (W.IPV4_FS, 10), (W.IPV6_FSVPN, 14), (W.RTC, 11), (W.IPV4_SRP, 12), (W.IPV4_MUP, 15)):
         for ap in (0, 3):
             l, r = caps_pair([f, W.IPV4], lmode=ap, rmode=ap, ext=(False, False))
             nh = None if f in FS else NH4
